@@ -8,10 +8,13 @@ predicate  the property itself evaluated on the implementation's outputs (numpy 
            implementation process), independent of the model
 """
 import concurrent.futures
+import copy
 import itertools
 import json
+import os
+import subprocess
 
-from lib.vcommon import coq_str
+from lib.vcommon import PY, VERIF, coq_list, coq_str, impl_env
 
 HDR = ("From Coq Require Import String List ZArith Bool.\nFrom LNML Require Import Model.ArrayMorph.\n"
        "Import ListNotations.\nOpen Scope Z_scope.\n")
@@ -22,6 +25,8 @@ K_ROOT = "C18:to_root-changes-tree-or-root"
 K_VIEW = "C18:segment-view-not-one-segment-per-non-root-vertex"
 K_RT = "C18:arrays-differ-after-reload"
 K_ACC = "C18:accessors-disagree-with-connectivity-array"
+K_HIST = "C18:file-content-depends-on-what-the-path-held-before"
+K_STATIC = "C18:writer-open-mode-or-derived-state-in-SegmentList"
 K_FRAME = "C18:operation-on-one-morphology-changes-another-or-the-callers-arrays"
 
 
@@ -238,7 +243,16 @@ def gen_views(ck):
             c["conn"] = conn2
             c["plain"] = False
             c["kind"] = "root-not-at-0"
+        # half of the morphologies receive their arrays AFTER construction (as ArrayMorphLoader does), or get the mask
+        # re-assigned: the views must be computed from the current arrays
+        u = ck.rng.random()
+        if u < 0.3 and len(c["verts"]) == len(c["conn"]):
+            c["assign"] = "all"
+        elif u < 0.5 and (c["mask"] is None or len(c["mask"]) == n):
+            c["assign"] = "mask"
         cases.append(c)
+    cases[0] = dict(cases[0])
+    cases.insert(1, dict(cases[0], assign="all", kind="stored:assigned-after-construction"))
     return cases
 
 
@@ -362,6 +376,107 @@ def gen_frames(ck):
         cases.append({"verts": rand_verts(ck.rng, n), "conn": conn, "src": src, "share": share, "ops": ops,
                       "kind": "frame:%s:%s" % (src, share)})
     return cases
+
+
+def _edit_doc(ck, doc):
+    """the same document (same ids, same number of morphologies) with edited arrays"""
+    d = copy.deepcopy(doc)
+    for m in [c["m"] for c in d["cells"]] + d["morphs"]:
+        n = ck.rng.randrange(1, 9)
+        conn, _ = random_tree(ck.rng, n)
+        m.update({"verts": rand_verts(ck.rng, n), "conn": conn, "mask": None})
+    d["kind"] = "doc:edited"
+    return d
+
+
+def gen_histories(ck):
+    """several writes to ONE path, each followed by a load (C18_file_history): a later write must not see the earlier ones"""
+    def mm(i, n, ident):
+        return {"verts": [[10 * i + k, k, 0, 1 + k] for k in range(n)], "conn": [-1] + [0] * (n - 1), "mask": None, "id": ident}
+    a = {"cells": [], "morphs": [mm(1, 3, "m1"), mm(2, 2, "m2")]}
+    b = {"cells": [], "morphs": [mm(3, 4, "other")]}
+    a2 = {"cells": [], "morphs": [mm(4, 2, "m1"), mm(5, 5, "m2")]}
+    cases = [
+        {"steps": [{"doc": a}, {"doc": b}], "kind": "history:stored:different-document"},
+        {"steps": [{"doc": a}, {"doc": a2}], "kind": "history:stored:edited-same-ids"},
+        {"steps": [{"morph": mm(6, 3, None)}, {"morph": mm(7, 2, None)}], "kind": "history:stored:single-morphology-twice"},
+    ]
+    for _ in range(ck.n(25, 250)):
+        steps = []
+        for k in range(ck.rng.randrange(2, 4)):
+            u = ck.rng.random()
+            prev = steps[-1] if steps else None
+            if prev is not None and "doc" in prev and u < 0.4:
+                steps.append({"doc": _edit_doc(ck, prev["doc"])})
+            elif u < 0.8:
+                d = _gen_doc(ck, ck.rng.randrange(0, 3), ck.rng.randrange(0, 3), distinct=True)
+                steps.append({"doc": d})
+            else:
+                steps.append({"morph": gen_morph(ck)})
+        c = {"steps": steps, "kind": "history:random"}
+        if ck.rng.random() < 0.15:
+            c["preexisting"] = "garbage"
+        cases.append(c)
+    return cases
+
+
+def doc_term(c):
+    return "(Build_adoc vtx [%s] [%s])" % ("; ".join("(%s, %s)" % (ostr(x["id"]), morph_term(x["m"])) for x in c["cells"]),
+                                           "; ".join(morph_term(m) for m in c["morphs"]))
+
+
+def loaded_plain(m):
+    n = len(m["conn"])
+    return (n >= 1 and not any(m["mask"]) and len(m["mask"]) == n and len(m["verts"]) == n and is_tree(m["conn"])
+            and m["conn"][0] == -1)
+
+
+def loaded_view_rows(ck, o, origin, rows, checks):
+    """the segment-view clause on every morphology that came out of ArrayMorphLoader.load"""
+    if o.get("r") != "ok":
+        return
+    for k, m in enumerate(o["loaded"]):
+        c = {"verts": m["verts"], "conn": m["conn"], "mask": m["mask"], "kind": "loaded", "plain": loaded_plain(m),
+             "origin": origin, "loaded_index": k}
+        if m.get("len") is None:
+            ck.disagree("segments_view (loaded morphology)", c, "a segment view", m.get("view_error"))
+            ck.witness(K_VIEW, "segment view of a loaded morphology raised %s" % m.get("view_error"), input=c,
+                       expected="one segment per non-root vertex", observed=m.get("view_error"))
+            continue
+        ov = {"r": "ok", "len": m["len"], "segs": m["view"], "conv": m["conv"]}
+        mt = "(Build_amorph vtx None %s %s %s)" % (vts(m["verts"]), zs(m["conn"]), bs(m["mask"]))
+        view = "[%s]" % "; ".join("None" if x is None else "(Some %s)" % seg_term(x) for x in m["view"])
+        conv = "None" if m["conv"] == "IndexError" else "(Some [%s])" % "; ".join(seg_term(x) for x in m["conv"])
+        rows.append((c, ov, "(%s, %s, %s)" % (mt, z(m["len"]), view), "(%s, %s)" % (mt, conv),
+                     "(%s, %s)" % (mt, "true" if c["plain"] else "false")))
+        checks.append((c, ov))
+
+
+def translate_static(ck):
+    """Gen_C18.v / Inst_C18.v: open modes of writer and loader, attributes SegmentList / ArrayMorphology assign on self"""
+    p = subprocess.run([PY, os.path.join(VERIF, "translators", "tr_c18.py")], capture_output=True, text=True,
+                       env=impl_env(), timeout=120)
+    lines = [l for l in p.stdout.splitlines() if l.strip().startswith("{")]
+    if p.returncode != 0 or not lines:
+        ck.oblige("translate:tr_c18", False, (p.stdout + p.stderr)[-1500:], kind="translate")
+        return None
+    d = json.loads(lines[-1])
+    ck.oblige("translate:tr_c18", not d["unknown"], "; ".join(d["unknown"]), kind="translate")
+    sl = lambda l: coq_list([coq_str(x) + "%string" for x in l])  # noqa: E731
+    g = ck.gen_v("Gen_C18.v", "From Coq Require Import String List.\nImport ListNotations.\n"
+                 "Definition writer_modes : list string := %s.\nDefinition loader_modes : list string := %s.\n"
+                 "Definition segmentlist_writes : list string := %s.\nDefinition arraymorph_writes : list string := %s.\n"
+                 % (sl(d["writer_modes"]), sl(d["loader_modes"]), sl(d["segmentlist_writes"]), sl(d["arraymorph_writes"])))
+    ok, out = ck.coqc(g)
+    ck.oblige("Gen_C18.v:compiles", ok, out[-1000:], kind="translate")
+    inst = ck.gen_v("Inst_C18.v", "From Coq Require Import String List Bool.\nFrom LNML Require Import Model.ArrayMorph.\n"
+                    "From Run Require Import Gen_C18.\n"
+                    "Lemma static_ok : c18_static_ok writer_modes loader_modes segmentlist_writes arraymorph_writes = true.\n"
+                    "Proof. vm_compute. reflexivity. Qed.\n")
+    iok, _ = ck.compile_obligations(inst, kind="instance")
+    if not iok:
+        ck.extra["static_facts"] = d
+    return d
 
 
 def check_frame(ck, c, o):
@@ -523,15 +638,22 @@ def run(ck):
         "segment view / conversion: no floating vertices (mask all False), root at vertex 0",
     ]
     ck.gate_static()
+    static = translate_static(ck)
 
     tr, vw, dc, ms = gen_to_root(ck), gen_views(ck), gen_docs(ck), gen_morphs(ck)
-    strip = lambda c: {k: v for k, v in c.items() if k not in ("kind", "valid", "plain")}  # noqa: E731
+    def strip(c):
+        if isinstance(c, dict):
+            return {k: strip(v) for k, v in c.items() if k not in ("kind", "valid", "plain")}
+        if isinstance(c, list):
+            return [strip(x) for x in c]
+        return c
     fr = gen_frames(ck)
+    hs = gen_histories(ck)
     out = ck.impl("c18_impl.py", {"to_root": [strip(c) for c in tr], "views": [strip(c) for c in vw],
                                   "docs": [strip(c) for c in dc], "morphs": [strip(c) for c in ms],
-                                  "frames": [strip(c) for c in fr]}, timeout=900)
+                                  "frames": [strip(c) for c in fr], "histories": [strip(c) for c in hs]}, timeout=900)
 
-    dis = {"to_root": 0, "view": 0, "convert": 0, "document": 0, "morphology": 0, "frame": 0}
+    dis = {"to_root": 0, "view": 0, "convert": 0, "document": 0, "morphology": 0, "frame": 0, "history": 0}
     orig = {"convert": 0, "document": 0}
 
     # ---- to_root: model vs implementation
@@ -564,6 +686,16 @@ def run(ck):
         conv = "None" if o["conv"] == "IndexError" else "(Some [%s])" % "; ".join(seg_term(s) for s in o["conv"])
         rows.append((c, o, "(%s, %s, %s)" % (morph_term(c), z(o["len"]), view), "(%s, %s)" % (morph_term(c), conv),
                      "(%s, %s)" % (morph_term(c), "true" if c["plain"] else "false")))
+    # the same clause on every morphology that came back from ArrayMorphLoader.load (documents, single, histories)
+    loaded_checks = []
+    for i, o in enumerate(out["docs"]):
+        loaded_view_rows(ck, o, "document case %d" % i, rows, loaded_checks)
+    for i, o in enumerate(out["morphs"]):
+        loaded_view_rows(ck, o, "single morphology case %d" % i, rows, loaded_checks)
+    for i, h in enumerate(out["histories"]):
+        for k, o in enumerate(h["steps"]):
+            loaded_view_rows(ck, o, "history %d step %d" % (i, k), rows, loaded_checks)
+    ck.tally("view:loaded-from-file", len(loaded_checks))
     for fi, part in enumerate(chunks(rows, 300)):
         jobs.append(("view", part, "Cases_C18_view_%d.v" % fi,
                      "Definition vcases : list (amorph vtx * Z * list (option (segment vtx))) :=\n [%s].\n"
@@ -605,6 +737,27 @@ def run(ck):
         jobs.append(("morph", part, "Cases_C18_morph_%d.v" % fi,
                      "Definition cases : list (amorph vtx * rt vtx) :=\n [%s].\n" % ";\n  ".join(x[2] for x in part),
                      ["mismatches morph_case_ok cases"]))
+
+    # ---- histories: several writes to one path
+    rows = []
+    for c, o in zip(hs, out["histories"]):
+        ck.tally(":".join(c["kind"].split(":")[:2]))
+        items, rts, bad = [], [], False
+        for st, so in zip(c["steps"], o["steps"]):
+            t = rt_term(so)
+            if t is None:
+                ck.disagree("roundtrip_history", strip(c), "RtOk/RtNodeError/RtLoadError per step", so,
+                            note="exception the model does not have")
+                bad = True
+                break
+            items.append("(HDoc %s)" % doc_term(st["doc"]) if "doc" in st else "(HMorph %s)" % morph_term(st["morph"]))
+            rts.append(t)
+        if not bad:
+            rows.append((c, o, "([%s], [%s])" % ("; ".join(items), "; ".join(rts))))
+    for fi, part in enumerate(chunks(rows, 150)):
+        jobs.append(("history", part, "Cases_C18_history_%d.v" % fi,
+                     "Definition cases : list (list (hitem vtx) * list (rt vtx)) :=\n [%s].\n" % ";\n  ".join(x[2] for x in part),
+                     ["mismatches history_case_ok cases"]))
 
     # ---- frame cases: two morphologies sharing their inputs
     rows = []
@@ -664,6 +817,12 @@ def run(ck):
                             note="implementation agrees with the pinned-code model write_document_orig" if i not in res[1] else "")
             orig["document"] += len([i for i in res[0] if i not in res[1]])
             dom_bad += len(res[2])
+        elif kind == "history":
+            for i in res[0]:
+                dis["history"] += 1
+                ck.disagree("roundtrip_history (each write starts from an empty file)", strip(part[i][0]),
+                            "every step as on a fresh path",
+                            [{k: so.get(k) for k in ("r", "msg", "n_written", "n_loaded")} for so in part[i][1]["steps"]])
         elif kind == "frame":
             for i in res[0]:
                 dis["frame"] += 1
@@ -707,6 +866,42 @@ def run(ck):
         ck.count(1, nontrivial_key=["doc", strip(c)] if (c["cells"] or c["morphs"]) else None,
                  sample={"document": {"cells": len(c["cells"]), "morphology": len(c["morphs"])}, "implementation": o["r"]}
                  if c["kind"].startswith("stored") else None)
+    for c, o in loaded_checks:
+        if c["plain"]:
+            check_view(ck, c, o)
+        ck.count(1, nontrivial_key=["loaded-view", c["origin"], c["loaded_index"]] if len(c["conn"]) >= 2 else None)
+    for c, o in zip(hs, out["histories"]):
+        for k, (st, so) in enumerate(zip(c["steps"], o["steps"])):
+            in_domain = effective_names(st["doc"])[1] if "doc" in st else True
+            if not in_domain:
+                continue
+            good = so.get("r") == "ok" and so.get("np_equal") and so.get("inputs_unchanged")
+            if not good:
+                ck.witness(K_HIST if k > 0 else K_RT,
+                           "write(data, path) over a path that was written before does not load back as the data "
+                           "(write %d of %d to the same path)" % (k + 1, len(c["steps"])),
+                           input={"writes_to_one_path": strip(c["steps"][:k + 1]), "preexisting": c.get("preexisting")},
+                           expected="exactly the morphologies of the last write, arrays identical",
+                           observed={x: so.get(x) for x in ("r", "stage", "msg", "n_written", "n_loaded", "np_equal", "missing")},
+                           broken="C18_file_history")
+                break
+        ck.count(1, nontrivial_key=["history", strip(c)],
+                 sample={"history": [("doc" if "doc" in st else "morph") for st in c["steps"]],
+                         "implementation": [so.get("r") for so in o["steps"]]} if "stored" in c["kind"] else None)
+    if static is not None:
+        bad = []
+        if not static["writer_modes"] or any(m != "w" for m in static["writer_modes"]):
+            bad.append("ArrayMorphWriter opens its file with mode(s) %s, not \"w\"" % static["writer_modes"])
+        if not static["loader_modes"] or any(m != "r" for m in static["loader_modes"]):
+            bad.append("ArrayMorphLoader opens its file with mode(s) %s, not \"r\"" % static["loader_modes"])
+        extra = sorted(set(static["segmentlist_writes"]) - {"arraymorph", "instantiated_segments"})
+        if extra:
+            bad.append("SegmentList keeps state besides the morphology reference: self.%s" % ", self.".join(extra))
+        extra = sorted(set(static["arraymorph_writes"]) - {"connectivity", "vertices", "id", "physical_mask", "node_types",
+                                                           "fractions_along", "segments"})
+        if extra:
+            bad.append("ArrayMorphology assigns attributes outside its arrays: self.%s" % ", self.".join(extra))
+        ck.extra["static_facts_deviations"] = bad
     for c, o in zip(fr, out["frames"]):
         check_frame(ck, c, o)
         ck.count(1, nontrivial_key=["frame", strip(c)] if any(x[1] == "to_root" and x[2] != 0 for x in c["ops"]) else None,
